@@ -81,6 +81,43 @@ fn algebra<S: Sc>(case: &Case, ck: &mut Ck<S>) {
     ck.note("p*q", &(qp * qq));
 }
 
+/// magnitudes a tolerance would call "negligible" or "close enough to unit":
+/// class 0 all three quaternions scaled by 2^-k, class 1 p nearly unit (|p|^2 = (1+2^-k)^2),
+/// class 2 q with scalar part exactly 1 or 0, class 3 one operand exactly zero
+fn g_alg_scaled(rng: &mut Rng, tier: Tier) -> Case {
+    let mut c = g_alg(rng, Tier::Quick);
+    let _ = tier;
+    let k = rng.range(18, 40) as u32;
+    let class = rng.below(4) as u16;
+    c.class = class;
+    match class {
+        0 => {
+            for i in 0..12 {
+                c.r[i] = cgv_core::sc::Rat::new(c.r[i].n, c.r[i].d << k);
+            }
+        }
+        1 => {
+            let u = gen::unit_quat(rng, Tier::Quick);
+            for i in 0..4 {
+                // u * (1 + 2^-k)
+                c.r[i] = cgv_core::sc::Rat::new(u[i].n * ((1i64 << k) + 1), u[i].d << k);
+            }
+        }
+        2 => {
+            c.r[4] = cgv_core::sc::Rat::int(if rng.bool() { 1 } else { 0 });
+            c.r[0] = cgv_core::sc::Rat::int(if rng.bool() { 1 } else { 0 });
+        }
+        _ => {
+            let which = rng.below(3) as usize;
+            for i in 0..4 {
+                c.r[which * 4 + i] = cgv_core::sc::Rat::int(0);
+            }
+        }
+    }
+    c.nontrivial = true;
+    c
+}
+
 fn g_unit(rng: &mut Rng, tier: Tier) -> Case {
     let mut c = Case::new();
     let p = gen::unit_quat(rng, tier);
@@ -124,6 +161,7 @@ const EP_ALG: &[&str] = &[
 pub fn clauses() -> Vec<Clause> {
     vec![
         clause!("algebra", EP_ALG, g_alg, algebra, weight = 2.0, classes = 0),
+        clause!("algebra_scaled", EP_ALG, g_alg_scaled, algebra, weight = 1.0, classes = 4),
         clause!("unit", EP_ALG, g_unit, unit, weight = 2.0, classes = 0),
     ]
 }
